@@ -14,7 +14,6 @@ from types import (
     ModuleType,
     SimpleNamespace,
 )
-from weakref import WeakKeyDictionary
 
 from .doc import (
     always_break,
@@ -1154,28 +1153,16 @@ def resolve_cnamedtuple_fieldnames(value):
     )
 
 
-# Keys: classes/constructors
-# Values: a tuple of fieldnames is resolving them was successful.
-#         Otherwise, an exception that was raised when attempting
-#         to resolve the fieldnames.
-_cnamedtuple_fieldnames_by_class = WeakKeyDictionary()
-
-
 # Examples of cnamedtuples:
 # - return value of time.strptime()
 # - return value of os.uname()
 def pretty_cnamedtuple(value, ctx, trailing_comment=None):
     cls = type(value)
-    if cls not in _cnamedtuple_fieldnames_by_class:
-        try:
-            fieldnames = resolve_cnamedtuple_fieldnames(value)
-        except Exception as exc:
-            fieldnames = exc
-        _cnamedtuple_fieldnames_by_class[cls] = fieldnames
-
-    fieldnames = _cnamedtuple_fieldnames_by_class[cls]
-    if isinstance(fieldnames, Exception):
-        raise fieldnames
+    # Resolved for every value: whether the repr can be parsed depends on
+    # the elements of the value at hand, so neither a success nor a failure
+    # can be remembered per class without making the output depend on
+    # what was printed before.
+    fieldnames = resolve_cnamedtuple_fieldnames(value)
 
     return pretty_call_alt(
         ctx,
